@@ -18,6 +18,7 @@ CONSTANTS
   Bases = {%(bases)s}
   CellSets <- %(cells)s
   Actions <- %(actions)s
+  MaxDepth = %(depth)d
   EmitJson = TRUE
 INVARIANT MapsConsistent
 INVARIANT GeometryFollows
@@ -114,7 +115,7 @@ def body():
     tmpcfg = os.path.join(common.SPEC, "_c03_%d.cfg" % os.getpid())
     with open(tmpcfg, "w") as f:
         f.write(CFG % dict(bases='"OCT", "STRIP8", "TET"' if quick else '"OCT", "STRIP8", "TET", "CUBE12", "DISJ"',
-                           cells="CellsQuick" if quick else "CellsThorough", actions="ActionsQuick" if quick else "ActionsThorough"))
+                           cells="CellsQuick" if quick else "CellsThorough", actions="ActionsQuick" if quick else "ActionsThorough", depth=2))
     try:
         res = common.run_tlc("Symmetry", os.path.basename(tmpcfg), timeout=3000)
     finally:
